@@ -61,6 +61,10 @@ func adminGuardianSetUpgradeToVAA(
 		return nil, fmt.Errorf("too many guardians - %d, maximum is %d", len(req.Guardians), common.MaxGuardianCount)
 	}
 
+	if guardianSetIndex == math.MaxUint32 {
+		return nil, errors.New("guardian set index overflow")
+	}
+
 	addrs := make([]ethcommon.Address, len(req.Guardians))
 	for i, g := range req.Guardians {
 		if !ethcommon.IsHexAddress(g.Pubkey) {
@@ -182,6 +186,10 @@ func tokenBridgeRegisterChain(
 	sequence uint64,
 	targetChainId vaa.ChainID,
 ) (*vaa.VAA, error) {
+	if len(req.Module) > 32 {
+		return nil, errors.New("invalid module (expected at most 32 bytes)")
+	}
+
 	if req.ChainId > math.MaxUint16 {
 		return nil, errors.New("invalid chain_id")
 	}
@@ -220,6 +228,10 @@ func tokenBridgeUpgradeContract(
 	sequence uint64,
 	targetChainId vaa.ChainID,
 ) (*vaa.VAA, error) {
+	if len(req.Module) > 32 {
+		return nil, errors.New("invalid module (expected at most 32 bytes)")
+	}
+
 	payload, err := hex.DecodeString(req.Payload)
 	if err != nil {
 		return nil, errors.New("invalid payload encoding (expected hex)")
@@ -243,6 +255,14 @@ func tokenBridgeDestroyUnexecutedSequenceContracts(
 	sequence uint64,
 	targetChainId vaa.ChainID,
 ) (*vaa.VAA, error) {
+	if req.EmitterChain > math.MaxUint16 {
+		return nil, errors.New("invalid emitter_chain")
+	}
+
+	if len(req.Sequences) > math.MaxUint16 {
+		return nil, fmt.Errorf("too many sequences - %d, maximum is %d", len(req.Sequences), math.MaxUint16)
+	}
+
 	v := vaa.CreateGovernanceVAA(governanceChainId, governanceEmitterAddress, timestamp, nonce, sequence, targetChainId, guardianSetIndex,
 		vaa.BodyTokenBridgeDestroyContracts{
 			EmitterChain: vaa.ChainID(req.EmitterChain),
@@ -262,6 +282,10 @@ func tokenBridgeUpdateMinimalConsistencyLevel(
 	sequence uint64,
 	targetChainId vaa.ChainID,
 ) (*vaa.VAA, error) {
+	if req.NewConsistencyLevel > math.MaxUint8 {
+		return nil, errors.New("invalid new_consistency_level")
+	}
+
 	v := vaa.CreateGovernanceVAA(governanceChainId, governanceEmitterAddress, timestamp, nonce, sequence, targetChainId, guardianSetIndex,
 		vaa.BodyTokenBridgeUpdateMinimalConsistencyLevel{
 			NewConsistencyLevel: uint8(req.NewConsistencyLevel),
@@ -283,6 +307,11 @@ func tokenBridgeUpdateRefundAddress(
 	if err != nil {
 		return nil, errors.New("invalid refund address encoding (expected hex)")
 	}
+
+	if len(address) > math.MaxUint16 {
+		return nil, errors.New("invalid refund address (expected at most 65535 bytes)")
+	}
+
 	v := vaa.CreateGovernanceVAA(governanceChainId, governanceEmitterAddress, timestamp, nonce, sequence, targetChainId, guardianSetIndex,
 		vaa.BodyTokenBridgeUpdateRefundAddress{
 			NewRefundAddress: address,
@@ -327,7 +356,7 @@ func (s *nodePrivilegedService) InjectGovernanceVAA(ctx context.Context, req *no
 		case *nodev1.GovernanceMessage_UpdateRefundAddress:
 			v, err = tokenBridgeUpdateRefundAddress(s.governanceChainId, s.governanceEmitterAddress, payload.UpdateRefundAddress, timestamp, req.CurrentSetIndex, message.Nonce, message.Sequence, targetChainId)
 		default:
-			panic(fmt.Sprintf("unsupported VAA type: %T", payload))
+			err = fmt.Errorf("unsupported VAA type: %T", payload)
 		}
 		if err != nil {
 			return nil, status.Error(codes.InvalidArgument, err.Error())
